@@ -8,7 +8,6 @@ From V Require Import Base.Int Base.IntLemmas Base.Bits Base.Lift Base.Table Gen
 Import ListNotations.
 Open Scope Z_scope.
 Ltac Zify.zify_post_hook ::= Z.to_euclidean_division_equations.
-Set Default Timeout 60.
 
 Lemma dby_succ y : days_before_year (y + 1) = days_before_year y + days_in_year y.
 Proof. unfold days_before_year, days_in_year, is_leap. destruct (_ || _) eqn:E; lia. Qed.
